@@ -383,7 +383,7 @@ func init() {
 		for i := 0; i < c.n; i++ {
 			fc := r.genFwCase(c)
 			runLine(fwCaseLine(fc))
-			if r.Chance(12) && len(fc.name) > 1 && len(fc.name) < 200 && !strings.Contains(fc.name, "..") {
+			if r.Chance(25) && len(fc.name) > 1 && len(fc.name) < 200 && !strings.Contains(fc.name, "..") {
 				// the same name as a WIRE query through query.New: clean, with an EDNS record, and with an
 				// additional section that does not parse (the question is fine: routing must not change)
 				labels := strings.Split(strings.TrimSuffix(fc.name, "."), ".")
@@ -394,7 +394,12 @@ func init() {
 					}
 				}
 				if okl {
-					body := append(wireName(labels...), 0, 1, 0, 1)
+					// the question's type and class vary (DS, DNSKEY, NS, SOA, ANY, HTTPS, CH …): the upstream a name
+					// goes to depends on the NAME alone
+					qt := r.Pick([]int{1, 1, 28, 12, 16, 15, 2, 6, 43, 43, 48, 46, 47, 33, 65, 255, 257, 5, 39})
+					qc := r.Pick([]int{1, 1, 1, 1, 3, 4, 255})
+					body := append(wireName(labels...), byte(qt>>8), byte(qt), byte(qc>>8), byte(qc))
+					c.Stat(fmt.Sprintf("fwdq:type-%d", qt))
 					ar := 0
 					switch r.Intn(4) {
 					case 0:
